@@ -181,8 +181,9 @@ pub fn c04_case(start: &Pos, moves: &[Move], use_startpos: bool, probes: &[u16],
             match gen_all(&gen_b, z).into_iter().find(|s| desc(s).ok() == Some(m)) {
                 Some(s) => gen_b = s,
                 None => {
-                    gen_alive = false;
-                    st.label("generator_does_not_offer_move");
+                    // "identical to following the engine's own generated successors along the same
+                    // moves" presupposes that the successor exists
+                    return Err(format!("the legal move {} of the game (played from '{}' after {:?}) has no generated successor: the game cannot be followed along the engine's own successors", text[i], start.fen(), &text[..i]));
                 }
             }
         }
